@@ -23,6 +23,7 @@ var importUVWorkerPool sync.Pool
 
 func getImportUVWorker(padW, uvWidth int) *importUVWorker {
 	if v := importUVWorkerPool.Get(); v != nil {
+		verifhook.Pool("lossy.importuv", true)
 		wk := v.(*importUVWorker)
 		if cap(wk.rowR[0]) >= padW && cap(wk.tmpRGB) >= uvWidth*4 {
 			return wk
@@ -459,6 +460,7 @@ func NewEncoder(img image.Image, cfg EncodeConfig) *VP8Encoder {
 
 	// Try to reuse a pooled encoder with matching dimensions.
 	if v := encoderPool.Get(); v != nil {
+		verifhook.Pool("lossy.encoder", true)
 		enc := v.(*VP8Encoder)
 		if enc.mbW == mbW && enc.mbH == mbH {
 			enc.resetForReuse(cfg, w, h)
@@ -504,6 +506,7 @@ func NewEncoderFromYUV(yuv *image.YCbCr, width, height int, cfg EncodeConfig) *V
 
 	// Try to reuse a pooled encoder with matching dimensions.
 	if v := encoderPool.Get(); v != nil {
+		verifhook.Pool("lossy.encoder", true)
 		enc := v.(*VP8Encoder)
 		if enc.mbW == mbW && enc.mbH == mbH {
 			enc.resetForReuse(cfg, width, height)
@@ -758,6 +761,7 @@ func (enc *VP8Encoder) importImage(img image.Image) {
 	if isDirect && rg == nil {
 		// Fast parallel path for non-dithered direct pixel access (NRGBA/RGBA).
 		nWorkers := runtime.GOMAXPROCS(0)
+		nWorkers = verifhook.Workers("lossy.importY", nWorkers)
 		if nWorkers > padH {
 			nWorkers = padH
 		}
@@ -837,6 +841,7 @@ func (enc *VP8Encoder) importImage(img image.Image) {
 	if isDirect && rg == nil {
 		// Fast parallel path for non-dithered direct pixel access (NRGBA/RGBA).
 		nUVWorkers := runtime.GOMAXPROCS(0)
+		nUVWorkers = verifhook.Workers("lossy.importUV", nUVWorkers)
 		if nUVWorkers > halfPadH {
 			nUVWorkers = halfPadH
 		}
@@ -1355,6 +1360,7 @@ func (enc *VP8Encoder) EncodeFrame() ([]byte, error) {
 	// - Method >= 3 (RD-based mode selection, which is the hot path)
 	// - Single-pass quality mode (no rate control iteration)
 	useParallel := runtime.GOMAXPROCS(0) > 1 && enc.mbH >= 4 && enc.config.Method >= 3 && !doSearch
+	useParallel = useParallel && verifhook.Workers("lossy.switch", 2) > 1
 
 	var stats ProbaStats
 	for pass := 0; pass < maxPasses; pass++ {
